@@ -11,6 +11,7 @@ fn main() {
     if cfg.prop == "NOOP" {
         return;
     }
+    pcv_core::run::mark_start();
     mem::install_panic_hook();
     let _ = std::fs::create_dir_all(&cfg.out_dir);
     let t0 = std::time::Instant::now();
